@@ -144,6 +144,9 @@ const ATTR_Y: &str = "y";
 #[derive(Default)]
 pub struct ModelParser {}
 
+/// The deepest nesting of XML elements in which a boxed expression is still parsed.
+const MAX_NESTING_DEPTH: usize = 256;
+
 impl ModelParser {
   /// Parses the XML document containing [Definitions] serialized to interchange format.
   pub fn parse(&mut self, xml: &str) -> Result<Definitions> {
@@ -508,6 +511,11 @@ impl ModelParser {
   }
 
   fn parse_optional_expression_instance(&self, node: &Node) -> Result<Option<ExpressionInstance>> {
+    // boxed expressions are parsed (and later built and evaluated) by recursive descent:
+    // the depth of nesting is limited, so that a deeply nested model is an error and not an overflow of the native stack
+    if node.ancestors().count() > MAX_NESTING_DEPTH {
+      return Err(xml_nesting_too_deep(MAX_NESTING_DEPTH));
+    }
     if let Some(context) = self.parse_optional_context(node)? {
       return Ok(Some(ExpressionInstance::Context(context)));
     }
@@ -1189,6 +1197,8 @@ mod errors {
     ///
     XmlUnexpectedNode(String, String),
     ///
+    XmlNestingTooDeep(usize),
+    ///
     XmlExpectedMandatoryAttribute(String, String),
     ///
     XmlExpectedMandatoryChildNode(String, String),
@@ -1241,6 +1251,9 @@ mod errors {
         }
         ModelParserError::XmlUnexpectedNode(s1, s2) => {
           write!(f, "unexpected XML node, expected: {}, actual: {}", s1, s2)
+        }
+        ModelParserError::XmlNestingTooDeep(limit) => {
+          write!(f, "expressions are nested deeper than {} XML elements", limit)
         }
         ModelParserError::XmlExpectedMandatoryAttribute(s1, s2) => {
           write!(f, "expected value for mandatory attribute `{}` in node `{}`", s2, s1)
@@ -1297,6 +1310,10 @@ mod errors {
 
   pub fn xml_unexpected_node(s1: &str, s2: &str) -> DmntkError {
     ModelParserError::XmlUnexpectedNode(s1.to_owned(), s2.to_owned()).into()
+  }
+
+  pub fn xml_nesting_too_deep(limit: usize) -> DmntkError {
+    ModelParserError::XmlNestingTooDeep(limit).into()
   }
 
   pub fn xml_expected_mandatory_attribute(s1: &str, s2: &str) -> DmntkError {
